@@ -139,6 +139,7 @@ LITERAL_FORMS = [
     ("list<int>", "[{0}, {1}, {2}].map(x, 10 / x)", ["int", "int", "int"]), ("bool", "[1, 1, {0}].exists_one(x, 1 / x > 0) || true", ["int"]),
     # literal spellings next to variables: suffix case, hex, exponent forms
     ("uint", "({0} + 5U)", ["uint"]), ("uint", "({0} + 0x1FU)", ["uint"]), ("bool", "({0} == 3U || {0} == 4u)", ["uint"]), ("int", "({0} + 0X1f)", ["int"]) if False else ("int", "({0} + 0x1F)", ["int"]),
+    ("double", "({0} + 1e400)", ["double"]), ("double", "({0} * 4e-400)", ["double"]), ("bool", "({0} < 1e400)", ["double"]),
     ("double", "({0} + 1E2)", ["double"]), ("double", "({0} + 1e+2 + .5)", ["double"]), ("list<uint>" if False else "bool", "([1u, 2U][0] == {0})", ["uint"]),
 ]
 
